@@ -1587,6 +1587,13 @@ write_gvar_data(Relocation *cur, Initializer *init, Type *ty, char *buf, int off
     return cur;
   }
 
+  // A floating initializer of an integer object is converted to the
+  // object's type (C11 6.7.9p11), not to int64_t: 1.8e19 fits an
+  // unsigned long.
+  add_type(init->expr);
+  if (is_flonum(init->expr->ty) && is_integer(ty))
+    init->expr = new_cast(init->expr, ty);
+
   char **label = NULL;
   uint64_t val = eval2(init->expr, &label);
 
